@@ -54,13 +54,22 @@ ConsistentWithDynamic(op, n, m, k) ==
    that nothing declares.                                                                                        *)
 GenericRels == {"sequence_same_length", "mapped_same_length", "lengthen_then_shorten", "shorten_then_lengthen",
                 "lengthen_roundtrip_values", "shorten_roundtrip_values", "concat_rest_length",
-                "flatten_source_length", "flatten_output_length", "unflatten_source_length", "unflatten_output_length"}
+                "flatten_source_length", "flatten_output_length", "unflatten_source_length", "unflatten_output_length",
+                \* ... and the bounds on the associated result types: the parts of a split, the results of concat and
+                \* remove are sequences again; the owned Sequence type can be collected into
+                "split_first_is_sequence", "split_second_is_sequence", "concat_output_is_sequence",
+                "remove_output_is_sequence", "sequence_from_iterator"}
 
 (* (v) bounds of the ordinary trait impls: the array has Default / Debug / PartialEq / Eq / PartialOrd / Ord / Hash exactly
    when its element type has - an element type that implements ONLY the trait in question (and its supertraits) is
-   enough, one that implements nothing is not.  The by-value iterator likewise for Debug.                          *)
+   enough ("full"), one that implements nothing ("none") or only the supertraits ("super": PartialEq without Eq, as
+   f32) is not.  The by-value iterator likewise for Debug.                                                        *)
 BoundTraits == {"Default", "Debug", "PartialEq", "Eq", "PartialOrd", "Ord", "Hash"}
-BoundOK(elemHas) == elemHas
+Supers(tr) == CASE tr = "Eq" -> {"PartialEq"} [] tr = "PartialOrd" -> {"PartialEq"}
+                [] tr = "Ord" -> {"PartialEq", "Eq", "PartialOrd"} [] OTHER -> {}
+BoundElems == {"none", "super", "full"}
+ElemTraits(tr, e) == CASE e = "none" -> {} [] e = "super" -> Supers(tr) [] e = "full" -> Supers(tr) \cup {tr}
+BoundOK(tr, e) == tr \in ElemTraits(tr, e)
 
 Traits == {"Send", "Sync", "Clone", "Copy"}
 Elems == {"u8", "string", "rc", "cell", "rawptr", "noclone", "mutexguard"}
